@@ -32,7 +32,7 @@ DEVS = [("CapSingle", "ComputeLoadsInput", (False, True, False))]
 
 def cfg(tier):
     q = tier != "thorough"
-    return ["SPECIFICATION Spec", "CONSTANTS", f" Fams <- {'FamQ' if q else 'FamAll'}", " Chunkings <- ChunkAll", f" Schedulers <- {'SchedQ' if q else 'SchedAll'}",
+    return ["SPECIFICATION Spec", "CONSTANTS", f" Fams <- {'FamQ' if q else 'FamAll'}", " Chunkings <- ChunkAll", f" Schedulers <- {'SchedQ' if q else 'SchedAll'}", f" WeightKinds <- {'WQ' if q else 'WAll'}",
             " Computes <- BB", " CheckNans <- BB", "INVARIANT C12_LazyFitComputesNothing", "INVARIANT C12_Protocol", "INVARIANT Emit", "CHECK_DEADLOCK FALSE"]
 
 
@@ -113,14 +113,18 @@ def evaluate(i, scn):
             mk = lambda **k: C.CPCCA(n_modes=3, alpha=0.5, use_pca=False, **k)  # noqa: E731
             if "Rotator" in fam:
                 rot = lambda **k: C.CPCCARotator(n_modes=3, power=2, **k)  # noqa: E731
+    wk = c.get("weights", "none")
+    wmem = (1.0 / X.std("time")) if wk != "none" else None                      # in-memory weights for the reference
+    wfit = None if wk == "none" else (wmem if wk == "numpy" else 1.0 / Xd.std("time"))   # "dask": derived lazily from the data
+    fitkw = (lambda w_: {} if w_ is None else dict(weights=w_))
     get, skw = scheduler(c["sched"])
     cnt = Counting(get)
-    tag = f"{fam} chunks={c['chunks']} sched={c['sched']} compute={c['compute']} check_nans={c['checkNans']}"
+    tag = f"{fam} chunks={c['chunks']} sched={c['sched']} compute={c['compute']} check_nans={c['checkNans']}" + (f" weights={wk}" if wk != "none" else "")
     with warnings.catch_warnings():
         warnings.simplefilter("ignore")
         # in-memory reference (same parameters, eager)
         ref = mk(**dict(kw, compute=True))
-        (ref.fit(X, Y, "time") if cross else ref.fit(X, "time"))
+        (ref.fit(X, Y, "time") if cross else ref.fit(X, "time", **fitkw(wmem)))
         refobj = ref
         if rot:
             refobj = rot(compute=c["compute"]).fit(ref)
@@ -130,7 +134,7 @@ def evaluate(i, scn):
             try:
                 m = mk(**kw)
                 n0 = cnt.n
-                (m.fit(Xd, Yd, "time") if cross else m.fit(Xd, "time"))
+                (m.fit(Xd, Yd, "time") if cross else m.fit(Xd, "time", **fitkw(wfit)))
                 n_fit = cnt.n - n0
                 obj = m
                 n_rot = 0
